@@ -1,0 +1,32 @@
+//go:build verif
+// +build verif
+
+package rogger
+
+import (
+	"context"
+	"time"
+)
+
+// VerifResetFlusher discards what is left in the queue, re-creates the flush contexts and starts a
+// new flusher goroutine. The flush handshake is one-shot per process otherwise. The previous
+// flusher must have exited (a flush completed) before this is called.
+func VerifResetFlusher() {
+	for {
+		select {
+		case <-logQueue:
+			continue
+		default:
+		}
+		break
+	}
+	syncDone, syncCancel = context.WithCancel(context.Background())
+	asyncDone, asyncCancel = context.WithCancel(context.Background())
+	go flushLog()
+}
+
+// VerifSetFlushTimeout sets how long FlushLogger waits for the flusher.
+func VerifSetFlushTimeout(d time.Duration) { waitFlushTimeout = d }
+
+// VerifQueueLen returns the number of entries waiting in the log queue.
+func VerifQueueLen() int { return len(logQueue) }
